@@ -24,7 +24,8 @@ def run(ctx):
                 "from the real functions as url.URL field records and re-judged by RedactTrace; S: free-running -race phase, "
                 "several goroutines redact one shared *url.URL while readers read it, judged after wg.Wait() and by RedactConcTrace; "
                 "H: every history of calls on inputs, equal inputs and earlier results, with the owner mutating inputs and returned results "
-                "between calls (RedactHist.tla; memo / shortcut / pointer-cache designs refuted) replayed, "
+                "between calls (RedactHist.tla; memo / shortcut / pointer-cache / scratch-buffer designs refuted), the *url.Error values kept and "
+                "re-read after every later call, replayed, "
                 "random histories re-judged by RedactHistTrace, the same shape run by concurrent goroutines. "
                 "distinct_nontrivial = distinct pairs with a non-nil userinfo")
     ctx.assumptions += ["url.URL values are built field by field (also combinations url.Parse never produces); strings are ASCII-escaped for TLC",
@@ -94,13 +95,13 @@ def run(ctx):
 
     def hist_job():
         consts = {"Inputs": "<- ModelInputs", "MaxSteps": 4 if q else 5}
-        invs = ["DependsOnArgOnly", "ErrTextOfThisArg", "FreshAcrossCalls", "ResultsAreNew"]
+        invs = ["DependsOnArgOnly", "ErrTextOfThisArg", "ErrTextsAreValues", "FreshAcrossCalls", "ResultsAreNew"]
         write_cfg(hd / "HistMC_run.cfg", "Spec", dict(consts, Impl='"clone"'), invariants=invs, properties=["CallsWriteNothing"])
         tlc_locked(ctx, hd, "RedactHist", "HistMC_run.cfg", workers=4, label="redact-hist-mc")
         # the designs the specification must refute: value-keyed memo of results, "already redacted" shortcut,
         # pointer-keyed cache of the error text
         for impl, inv in (("memo", "DependsOnArgOnly"), ("memo", "FreshAcrossCalls"), ("shortcut", "ErrTextOfThisArg"),
-                          ("ptrcache", "ErrTextOfThisArg")):
+                          ("ptrcache", "ErrTextOfThisArg"), ("scratch", "ErrTextsAreValues")):
             cfg = "Hist_%s_%s.cfg" % (impl, inv)
             write_cfg(hd / cfg, "Spec", dict(consts, Impl='"%s"' % impl, MaxSteps=4), invariants=[inv])
             r = ctx.tlc(hd, "RedactHist", cfg, workers=2, expect_ok=False, count=False,
